@@ -347,6 +347,37 @@ pub fn build_event(w: &mut World, toks: &[String]) -> Built2 {
             is_cancel_orders = 2;
             EngineEvent::Command(Command::ClosePositions(parse_filter(w, &toks[1])))
         }
+        "other" => {
+            let ex: usize = toks[2].parse().unwrap();
+            match toks[1].as_str() {
+                "mktre" => EngineEvent::Market(MarketStreamEvent::Reconnecting(EXCHANGES[ex])),
+                "accre" => EngineEvent::Account(AccountStreamEvent::Reconnecting(EXCHANGES[ex])),
+                _ => {
+                    let asset = w
+                        .built
+                        .engine
+                        .state
+                        .assets
+                        .0
+                        .keys()
+                        .position(|k| k.exchange == EXCHANGES[ex])
+                        .expect("exchange has an asset");
+                    EngineEvent::Account(AccountStreamEvent::Item(AccountEvent {
+                        exchange: ExchangeIndex(w.ex_index(ex)),
+                        kind: AccountEventKind::BalanceSnapshot(Snapshot(
+                            barter_execution::balance::AssetBalance {
+                                asset: AssetIndex(asset),
+                                balance: barter_execution::balance::Balance::new(
+                                    Decimal::from(1000 + w.tick),
+                                    Decimal::from(1000 + w.tick),
+                                ),
+                                time_exchange: time,
+                            },
+                        )),
+                    }))
+                }
+            }
+        }
         "trading" => EngineEvent::TradingStateUpdate(if toks[1] == "on" { TradingState::Enabled } else { TradingState::Disabled }),
         "snap" | "resp" | "fill" | "flat" | "price" => {
             if !ins_in_range(&toks[1]) {
